@@ -225,7 +225,7 @@ def add_env_full(u, real_typename=False, typehint_stub=False, real_ast=(), no_sy
     every field type these functions do not look into."""
     if typehint_stub:
         # TypeHint reduced to the one field the step loop reads (`position`)
-        u.raw(ENV_OPAQUE_NOAST.replace("#[verifier::external_body] pub struct TypeHint { _o: u8 }",
+        u.raw(_without(ENV_OPAQUE_NOAST, ["SyntaxId"] if no_syntaxid else []).replace("#[verifier::external_body] pub struct TypeHint { _o: u8 }",
                                        "#[verifier::external_body] pub struct TypeHintRest { _o: u8 }\npub struct TypeHint { pub position: Position, pub rest: TypeHintRest }"), kind="prelude")
     else:
         u.raw(_without(ENV_OPAQUE_NOAST, ["SyntaxId"] if no_syntaxid else []), kind="prelude")
